@@ -280,12 +280,7 @@ def parseStats (o : ParseOpts) (t : Table) (value : String) (stack : List StatsE
     let agg? : Option AggKind := match goLower kind with
       | "avg" => some .avg | "min" => some .min | "max" => some .max | "sum" => some .sum | _ => none
     match agg? with
-    | some k =>
-      let col := t.colWithFallback rest
-      -- aggregates need a number: `GetFloat` has no case for other stored types
-      if col.storage != .virt && !(col.dtype == .int || col.dtype == .int64 || col.dtype == .float) then
-        throw (.bad "cannot calculate from a column which is not a number")
-      else pure (stack ++ [.agg k col false])
+    | some k => pure (stack ++ [.agg k (t.colWithFallback rest) false])
     | none =>
       let l ← parseFilterLeaf o t value
       pure (stack ++ [.counter (.leaf l false)])
